@@ -16,6 +16,7 @@ def run(ctx):
     n = pepsolve.r_order(ctx)
     pepsolve.r_ret(ctx)
     pepsolve.r_primalflow(ctx)
+    pepsolve.r_heurcall(ctx)
     wrappers.r_heur(ctx)
     wrappers.r_mainvars(ctx)
     c16.r_options(ctx)
